@@ -7,8 +7,8 @@ import base, common, genrun, tlc, tokens, render
 from base import main_loop
 
 SCALARS = ["Int", "Float", "String", "Boolean", "ID", "Date", "Time", "DateTime"]
-SDL = ("\n".join("input Box%s { v: %s! }" % (s, s) for s in SCALARS) + "\n"
-       + "type Query {\n" + "\n".join("  out%s: %s\n  in%s(a: %s): String\n  inL%s(a: [%s!]): String\n  inO%s(a: Box%s): String" % (s, s, s, s, s, s, s, s) for s in SCALARS) + "\n}\n")
+SDL = ("\n".join("input Box%s { v: %s! }\ninput BoxN%s { v: %s }" % (s, s, s, s) for s in SCALARS) + "\n"
+       + "type Query {\n" + "\n".join("  out%s: %s\n  in%s(a: %s): String\n  inL%s(a: [%s!]): String\n  inO%s(a: Box%s): String\n  inLN%s(a: [%s]): String\n  inON%s(a: BoxN%s): String" % (s, s, s, s, s, s, s, s, s, s, s, s) for s in SCALARS) + "\n}\n")
 # the positions an input value of scalar S can sit in besides a bare argument: (name, query template, variables builder, unwrap)
 CONTEXTS_IN = [
     ("single-value-for-list-variable", "query ($a: [%(s)s!]) { inL%(s)s(a: $a) }", lambda v: {"a": v}, lambda a: a[0] if isinstance(a, list) and len(a) == 1 else ("NOTWRAPPED", a)),
@@ -21,6 +21,10 @@ CONTEXTS_LIT = [
     ("single-literal-for-list", "{ inL%(s)s(a: %(lit)s) }", lambda a: a[0] if isinstance(a, list) and len(a) == 1 else ("NOTWRAPPED", a)),
     ("item-of-list-literal", "{ inL%(s)s(a: [%(lit)s]) }", lambda a: a[0] if isinstance(a, list) and len(a) == 1 else ("NOTWRAPPED", a)),
     ("field-of-object-literal", "{ inO%(s)s(a: {v: %(lit)s}) }", lambda a: a["v"] if isinstance(a, dict) and list(a) == ["v"] else ("NOTWRAPPED", a)),
+    # the literal as the DEFAULT of a variable that is not provided, the variable used bare and inside list / object literals
+    ("default-of-omitted-variable", "query ($x: %(s)s = %(lit)s) { in%(s)s(a: $x) }", lambda a: a),
+    ("default-of-omitted-variable-inside-list-literal", "query ($x: %(s)s = %(lit)s) { inLN%(s)s(a: [$x]) }", lambda a: a[0] if isinstance(a, list) and len(a) == 1 else ("NOTWRAPPED", a)),
+    ("default-of-omitted-variable-inside-object-literal", "query ($x: %(s)s = %(lit)s) { inON%(s)s(a: {v: $x}) }", lambda a: a["v"] if isinstance(a, dict) and list(a) == ["v"] else ("NOTWRAPPED", a)),
 ]
 FAIL = "FAIL"
 
@@ -50,6 +54,16 @@ class Env:
 
                 @t.Resolver("Query.inO%s" % s, schema_name=self.sn)
                 async def r_ino(parent, args, ctx, info):
+                    env.got.append(dict(args))
+                    return "ok"
+
+                @t.Resolver("Query.inLN%s" % s, schema_name=self.sn)
+                async def r_inln(parent, args, ctx, info):
+                    env.got.append(dict(args))
+                    return "ok"
+
+                @t.Resolver("Query.inON%s" % s, schema_name=self.sn)
+                async def r_inon(parent, args, ctx, info):
                     env.got.append(dict(args))
                     return "ok"
             mk(s)
